@@ -233,6 +233,9 @@ class bicgstabl {
                 }
             }
 
+            size_t iter = 0;
+
+restart:
             if (prm.pside == side::left) {
                 backend::residual(rhs, A, x, *T);
                 P.apply(*T, *B);
@@ -257,7 +260,6 @@ class bicgstabl {
             scalar_type rnmax_computed = zeta0;
             scalar_type rnmax_true     = zeta0;
 
-            size_t iter = 0;
             for(; iter < prm.maxiter && zeta >= eps; iter += L) {
                 // BiCG part
                 rho0 = -omega * rho0;
@@ -419,6 +421,24 @@ done:
                 P.apply(*X, *T);
                 backend::axpby(one, *T, one, x);
             }
+
+            // The recurrences assume that the preconditioner is a fixed
+            // linear operator: with right preconditioning the correction is
+            // accumulated in the preconditioned space and P is applied to the
+            // sum once. A preconditioner that is only approximately linear
+            // (e.g. one working in single precision) makes the recursive
+            // residual differ from the residual of the returned x. Evaluate
+            // the latter and restart from it if it does not meet the
+            // tolerance yet.
+            if (prm.pside == side::left) {
+                backend::residual(rhs, A, x, *T);
+                P.apply(*T, *B);
+            } else {
+                backend::residual(rhs, A, x, *B);
+            }
+            zeta = norm(*B);
+
+            if (zeta >= eps && zeta < zeta0 && iter < prm.maxiter) goto restart;
 
             return std::make_tuple(iter, zeta / norm_rhs);
         }
